@@ -708,6 +708,45 @@ pub fn judge_l(case: &LCase, end: &SimEnd, o: &LObs) -> LVerdict {
                     format!("connection {} was never accepted although the server was still accepting", i),
                 ));
             }
+            // the server stopped accepting on an idle timeout although a connection was open (it is
+            // not idle then): whoever arrives afterwards is kept out by that open connection
+            if case.slow_clock == 0 && case.idle_timeout > 0 {
+                if let Some((ret_seq, _, text)) = &o.listen_result {
+                    if text == "Err(Timeout)" {
+                        let decision = o
+                            .log
+                            .iter()
+                            .rev()
+                            .find(|(s, _, e)| s < ret_seq && matches!(e, Ev::SelectReturn { what: "timeout", .. }))
+                            .map(|(s, t, _)| (*s, *t));
+                        if let Some((dseq, dt)) = decision {
+                            let open: Vec<usize> = o
+                                .conns
+                                .iter()
+                                .enumerate()
+                                .filter(|(_, c)| match c.accepted {
+                                    Some((aseq, _)) => aseq < dseq && c.srv_closed.map_or(true, |(cs, _)| cs > dseq),
+                                    None => false,
+                                })
+                                .map(|(j, _)| j)
+                                .collect();
+                            if !open.is_empty() && !co.sent.is_empty() {
+                                v.push(viol(
+                                    "C13",
+                                    "blocked-by-other-connections",
+                                    format!(
+                                        "connection {} had sent {} bytes of requests but was never accepted: the server stopped accepting at t={} ms (idle timeout) although connection(s) {:?} were still open, i.e. it was not idle",
+                                        i,
+                                        co.sent.len(),
+                                        dt,
+                                        open
+                                    ),
+                                ));
+                            }
+                        }
+                    }
+                }
+            }
             continue;
         }
         let model = model_stream(&case.cfg, &co.sent);
@@ -1341,6 +1380,51 @@ fn l_faults(c: &NetCounters) -> Vec<(&'static str, u64)> {
 }
 
 pub fn eval_l(case: &LCase) -> RunResult {
+    eval_l_obs(case).0
+}
+
+/// C02 on the socket path, differentially: the case's single healthy connection is played as scripted
+/// (cut into segments, with waits and server-side short reads) and once more with the whole stream in
+/// one segment; the reply bytes the client receives must be the same.
+pub fn eval_ldiff(case: &LCase) -> RunResult {
+    let (mut r, o) = eval_l_obs(case);
+    let mut one = case.clone();
+    // (exactly the bytes the script sent)
+    let len = o.conns.first().map_or(0, |c| c.sent.len());
+    one.steps = vec![Step::Connect(0), Step::Send(0, len), Step::Quiesce];
+    one.conns[0].srv_read_plan = vec![];
+    let (end2, _, o2) = run_l(&one);
+    if matches!(end2, SimEnd::Completed) && o.conns.len() == 1 && o2.conns.len() == 1 && r.violations.iter().all(|v| v.clause != "panic" && v.clause != "livelock" && v.clause != "deadlock") {
+        let (a, b) = (&o.conns[0].rx, &o2.conns[0].rx);
+        // (compared in the canonical form that does not depend on HashMap iteration order in GetInfo)
+        let canon = |w: &[u8]| {
+            let mut f = Fnv::new();
+            canon_wire_hash(&mut f, w);
+            f.0
+        };
+        if canon(a) != canon(b) {
+            let (fa, _) = split_nul(a);
+            let (fb, _) = split_nul(b);
+            r.violations.push(viol(
+                "C02",
+                "diff-replies",
+                format!(
+                    "reply bytes on a socket depend on segmentation: steps {:?} give {} frames ({} bytes), the whole stream in one segment gives {} frames ({} bytes)",
+                    &case.steps[..case.steps.len().min(16)],
+                    fa.len(),
+                    a.len(),
+                    fb.len(),
+                    b.len()
+                ),
+            ));
+        }
+    } else if !matches!(end2, SimEnd::Completed) {
+        r.violations.push(viol("C02", "diff-replies", format!("the one-segment run did not complete: {:?}", match end2 { SimEnd::Panic(t) => t, SimEnd::Deadlock(t) => t, _ => "step bound".to_string() })));
+    }
+    r
+}
+
+pub fn eval_l_obs(case: &LCase) -> (RunResult, LObs) {
     let (end, stats, o) = run_l(case);
     let vd = judge_l(case, &end, &o);
     let mut violations = vd.violations;
@@ -1386,7 +1470,7 @@ pub fn eval_l(case: &LCase) -> RunResult {
         k
     };
     probes.push(("two_connections_in_service_at_once", (concurrent > 0) as u64));
-    RunResult {
+    let rr = RunResult {
         violations,
         sig: sig.0,
         nontrivial: stats.switches >= 6,
@@ -1413,7 +1497,8 @@ pub fn eval_l(case: &LCase) -> RunResult {
             "simulated_ms": o.end_time,
             "listen_result": o.listen_result.as_ref().map(|x| x.2.clone()),
         })),
-    }
+    };
+    (rr, o)
 }
 
 // ---------------------------------------------------------------------------------------------
@@ -1907,6 +1992,55 @@ pub fn c02_spaces(tier: Tier) -> Vec<Space> {
             }),
         });
     }
+    // differential on the socket path: a stream with one request the service refuses to go on after
+    // (not JSON, or ill-typed for the generated code) in the middle, cut at random vs in one segment
+    {
+        let st: Vec<(SvcCfg, Vec<u8>)> = keep.iter().filter(|(_, s)| s.len() <= 1500 && !String::from_utf8_lossy(s).contains("Upgrade")).cloned().collect();
+        let n = if tier == Tier::Quick { 3_000 } else { 100_000 };
+        spaces.push(Space {
+            name: "L.diff.refused-request",
+            size: n,
+            exhaustive: false,
+            gen: Box::new(move |_idx, seed| {
+                let mut rng = Rng::new(seed);
+                let (cfg, base) = &st[rng.usize(st.len())];
+                // message boundaries of the base stream
+                let mut bounds = vec![0usize];
+                for (i, b) in base.iter().enumerate() {
+                    if *b == 0 {
+                        bounds.push(i + 1);
+                    }
+                }
+                let at = *rng.pick(&bounds);
+                let bad: &[u8] = match rng.below(5) {
+                    0 => b"{\"method\":42}\0",
+                    1 => b"{\"method\":\"org.example.ping.Ping\",\"parameters\":{\"ping\":12}}\0",
+                    2 => b"not json at all\0",
+                    3 => b"{\"method\":\"org.varlink.service.GetInfo\",\"more\":\"yes\"}\0",
+                    _ => b"\0",
+                };
+                let mut s = base[..at.min(base.len())].to_vec();
+                if rng.chance(5, 6) {
+                    s.extend_from_slice(bad);
+                }
+                s.extend_from_slice(&base[at.min(base.len())..]);
+                let k = rng.range(1, 8) as usize;
+                let mut cuts: Vec<usize> = (0..k)
+                    .map(|_| if rng.chance(1, 2) { *rng.pick(&bounds) + if at <= s.len() { 0 } else { 0 } } else { rng.usize(s.len().max(1)) })
+                    .collect();
+                cuts.sort();
+                cuts.dedup();
+                cuts.retain(|x| *x > 0 && *x < s.len());
+                let wait: Vec<bool> = (0..cuts.len() + 1).map(|_| rng.chance(2, 3)).collect();
+                let steps = cut_steps(0, s.len(), &cuts, &wait);
+                let mut conn = LConn::healthy(&s);
+                if rng.chance(1, 3) {
+                    conn.srv_read_plan = (0..rng.range(1, 30)).map(|_| rng.range(1, 60) as u16).collect();
+                }
+                Case::LDiff(LCase::single(cfg, conn, steps, SchedCfg::random(&mut rng, 1)))
+            }),
+        });
+    }
     spaces
 }
 
@@ -1928,10 +2062,36 @@ pub fn c03_spaces(tier: Tier) -> Vec<Space> {
                 }
             }
             cfg.scripted = names.clone();
-            let nconn = rng.range(1, 3) as usize;
             let mut conns = Vec::new();
             let mut steps = Vec::new();
-            for c in 0..nconn {
+            // in a third of the runs a peer that does not read its replies is served first and then
+            // resets its connection: a reply write fails on the server in the middle of the service's life
+            let hostile = rng.chance(1, 3) as usize;
+            if hostile == 1 {
+                let mut s = Vec::new();
+                for i in 0..rng.range(1, 3) {
+                    let base = rng.pick(crate::props::NAME_POOL).to_string();
+                    let m = if rng.chance(1, 2) { format!("{}.Echo", base) } else { "org.varlink.service.GetInfo".to_string() };
+                    s.extend(crate::alphabet::frame(&crate::alphabet::request(
+                        &m,
+                        Some(json!({"token": format!("c0-{}", i)})),
+                        crate::alphabet::Flags::NONE,
+                    )));
+                }
+                let mut h = LConn::healthy(&s);
+                h.peer = Peer::StopReading;
+                h.s2c_cap = *rng.pick(&[1usize, 16, 40]);
+                steps.push(Step::Connect(0));
+                steps.push(Step::Send(0, s.len()));
+                steps.push(Step::Quiesce);
+                steps.push(Step::Reset(0));
+                if rng.chance(1, 2) {
+                    steps.push(Step::Quiesce);
+                }
+                conns.push(h);
+            }
+            let nconn = hostile + rng.range(1, 3) as usize;
+            for c in hostile..nconn {
                 let mut s = Vec::new();
                 for i in 0..rng.range(1, 5) {
                     let base = rng.pick(crate::props::NAME_POOL).to_string();
@@ -2243,6 +2403,16 @@ pub fn c13_plan(tier: Tier) -> Plan {
                 if rng.chance(2, 3) {
                     steps.push(Step::Quiesce);
                 }
+                // in a third of the histories the server has an idle timeout (with or without a stop
+                // flag) and the idle connections stay open across the deadline: the server is not idle,
+                // the connection that arrives afterwards must be served like any other
+                let timed = rng.chance(1, 3);
+                if timed {
+                    steps.push(Step::Sleep(*rng.pick(&[400u64, 900, 1000, 1100, 2500, 3500])));
+                    if rng.chance(1, 2) {
+                        steps.push(Step::Quiesce);
+                    }
+                }
                 let i = conns.len();
                 let kinds: Vec<_> = (0..rng.range(1, 3)).map(|_| *rng.pick(&red)).collect();
                 conns.push(LConn::healthy(&token_stream(&cfg, &kinds, i)));
@@ -2252,6 +2422,10 @@ pub fn c13_plan(tier: Tier) -> Plan {
                 lc.conns = conns;
                 lc.initial = rng.range(1, 2) as usize;
                 lc.max = *rng.pick(&[4usize, 8, 100]);
+                if timed {
+                    lc.idle_timeout = rng.range(1, 2);
+                    lc.stop_flag = rng.chance(1, 2);
+                }
                 Case::L(lc)
             }),
         });
